@@ -27,7 +27,7 @@ func init() {
 			"'never loops' is decided as bounded progress: the worker watchdog turns a hang into inconclusive with the in-flight string recorded",
 			"NAND(children a,b) is read as (not a) and b, the reading the AST's own dump gives and the one the store's eval tree implements (cross-checked end-to-end by C02)",
 		},
-		Batches: tiered(32, 192),
+		Batches: tiered(192, 3840),
 		Run:     runC12,
 		Timeout: timeoutFor(8*time.Minute, 40*time.Minute),
 	})
